@@ -49,7 +49,7 @@ theorem transitions_are_nominal (fixed : Bool) (blocks : List (List Byte)) (tail
       ∧ fire fixed t' = (none, t'') ∧ t''.state = .stop ∧ t''.currBit = false ∧ t''.delay = 0 := by
   obtain ⟨t', hf, hs, _, ha, _⟩ := fires_tape fixed blocks tail (Tap.new (Spec.encode blocks ++ tail)).play
     hwf rfl rfl (Ahead.fresh _)
-  obtain ⟨t'', he, h1, h2, h3, _⟩ := fire_end fixed t' tail ht hs ha
+  obtain ⟨t'', he, h1, h2, h3, _, _⟩ := fire_end fixed t' tail ht hs ha
   exact ⟨t', t'', hf, hs, he, h1, h2, h3⟩
 
 /-- **Waveform, for every schedule.** Driving `process_clocks` with any schedule of steps of 1..16 T
